@@ -437,6 +437,16 @@ theorem derived_sequence_terminates (L : DerivedSeq.Level) (hL : DerivedSeq.nice
     ∃ res, DerivedSeq.derivedSequence L = some res ∧ res.length ≤ DerivedSeq.predSum L + 1 :=
   DerivedSeq.derivedSequence_terminates L hL
 
+/-- without well-formedness of the first graph: `derived_sequence` terminates on EVERY graph whose `rpo[0]` is
+    the entry (unreachable nodes, nodes without predecessors, repeated entries of `graph.nodes` allowed), after at
+    most `(|nodes| + 1) · |nodes| + 2` calls of `intervals` — the first interval graph is well-formed
+    (`interval_graph_wellformed`) and has at most `(|nodes| + 1) · |nodes|` edges -/
+theorem derived_sequence_terminates_any (L : DerivedSeq.Level) (h1 : L.entry ∉ L.order) :
+    ∃ res, DerivedSeq.derive (DerivedSeq.generalFuel L) L [] = some res ∧
+      res.length ≤ (L.nodes.length + 1) * L.nodes.length + 2 := by
+  obtain ⟨res, a, b⟩ := DerivedSeq.derive_total_general L h1 []
+  exact ⟨res, a, by simpa [DerivedSeq.generalFuel] using b⟩
+
 /-- ORDER IRRELEVANCE: two runs on the same `graph.nodes` whose `rpo[1:]` (i.e. the numbering) and whose
     predecessor lists are permutations of one another return the same derived sequence — same headers in the
     same order, same recorded edges, same `rpo` and entry of every interval graph, every level after the
@@ -448,6 +458,19 @@ theorem derived_sequence_order_irrelevant (L₁ L₂ : DerivedSeq.Level) (hn : L
       List.Forall₂ (fun a b => a.1 = b.1 ∧ a.2 ~ b.2) s₁.heads s₂.heads ∧
       s₁.recs = s₂.recs ∧ s₁.rpo = s₂.rpo ∧ s₁.entry = s₂.entry :=
   DerivedSeq.derivedSequence_order_irrelevant L₁ L₂ hn he ho hp r₁ h
+
+/-- the edges recorded for an interval graph are pairwise different, for every input: the duplicate test of
+    `Graph.add_edge`, left out of the model, never fires while an interval graph is built -/
+theorem interval_graph_edges_distinct (L : DerivedSeq.Level) (o : List (Nat × List Nat)) (r : List (Nat × Nat))
+    (h : DerivedSeq.intervalsG L = some (o, r)) : r.Nodup :=
+  DerivedSeq.records_nodup L o r h
+
+/-- shape of the derived sequence: it ends with the first level that has a single interval -/
+theorem derived_sequence_shape (L : DerivedSeq.Level) (res : List DerivedSeq.Step)
+    (h : DerivedSeq.derivedSequence L = some res) :
+    ∃ steps last, res = steps ++ [last] ∧ last.heads.length = 1 ∧ ∀ s ∈ steps, s.heads.length ≠ 1 := by
+  obtain ⟨steps, last, e, h1, h2⟩ := DerivedSeq.derive_shape _ L [] res h
+  exact ⟨steps, last, by simpa using e, h1, h2⟩
 
 /-- the witness graph of `derived_sequence_nodes_order_matters`: 1→2, 2→3, 3→5, 5→3, 3→2, 2→4, 1→4 -/
 def dsPreds : Nat → List Nat :=
